@@ -245,7 +245,7 @@ def _ftype(prog, mf):
 # ---------------------------------------------------------------------------------------
 # F9c narrowing: values that end up in <=16-bit fields of the Vgroup / Vdata records
 
-SLOT_WRITERS = ("vpackvg", "vpackvs")  # writers of the records whose fields carry the limits C20 names
+SLOT_WRITERS = ("vpackvg", "vpackvs", "GRIupdatemeta", "hdf_write_var", "GRIupdateRIG")  # writers of records whose fields carry format limits
 
 F9C_EXCEPT = {
     "F9c:VSsetfields:wlist->isize[wlist->n]=(order * rstab[j].isize)":
@@ -257,6 +257,8 @@ F9C_API_GUARD = {
     "F9c:vpackvs:strlen(vs->wlist.name[i])": ("scanattrs", "FIELDNAMELENMAX"),
     "F9c:vpackvg:strlen(vg->vgname)": ("Vsetname", "UINT16_MAX"),
     "F9c:vpackvg:strlen(vg->vgclass)": ("Vsetclass", "UINT16_MAX"),
+    # the rank of a variable is at most the number of dimensions defined in the file (ncvardef), which ncdimdef bounds
+    "F9c:hdf_write_var:assoc->count": ("ncdimdef", "H4_MAX_NC_DIMS"),
 }
 
 
@@ -466,6 +468,51 @@ def _api_guard_present(prog, fname, const_name):
     return False
 
 
+def _field_census(prog, rec, fld, bits, signed=False):
+    """Every store into <rec>.<fld> anywhere in the library is a constant that fits, a value of a type of at most `bits`
+    bits, or a variable that a dominating, failing comparison in the same function bounds by a named limit constant.
+    Returns (ok, text)."""
+    stores = 0
+    limit = (1 << (bits - 1)) - 1 if signed else (1 << bits) - 1
+    for f in prog.lib_funcs():
+        dom = None
+        for bid, i, s, n in f.nodes(True):
+            if n[0] != "asg" or n[1] != "=":
+                continue
+            t = strip(n[2])
+            if kind(t) != "mem" or (t[3], t[2]) != (rec, fld):
+                continue
+            stores += 1
+            r = _underlying(n[3])
+            while kind(r) == "asg":
+                r = _underlying(r[3])
+            if kind(r) == "int":
+                if -limit - 1 <= r[1] <= limit:
+                    continue
+                return False, "%s stores the constant %d" % (f.name, r[1])
+            rb = expr_bits(prog, f, r)
+            if rb is not None and rb <= bits:
+                continue
+            if kind(r) == "var":
+                # a comparison `v > LIMIT` (v the stored variable, LIMIT a named constant that fits) in a dominating block
+                if dom is None:
+                    dom = f.dominators()
+                ok = False
+                for b in dom.get(bid, ()):
+                    tm = f.blocks[b].get("term")
+                    if not tm or tm.get("cond") is None:
+                        continue
+                    for c in walk(tm["cond"], True):
+                        if c[0] == "bin" and c[1] in (">", ">=") and kind(strip(c[2])) == "var" and strip(c[2])[1] == r[1] and kind(strip(c[3])) == "int" and len(strip(c[3])) > 2 and strip(c[3])[2] and strip(c[3])[1] <= limit:
+                            ok = True
+                if ok:
+                    continue
+            return False, "%s stores `%s` (wider than %d bits, not compared with a limit before the store)" % (f.name, render(r)[:40], bits)
+    if not stores:
+        return False, "no store found"
+    return True, "all %d stores into %s.%s are constants, values of at most %d bits, or arguments compared with a named limit first" % (stores, rec, fld, bits)
+
+
 def rule_F9c(ctx):
     prog = ctx.prog
     fields = set()
@@ -521,9 +568,15 @@ def rule_F9c(ctx):
                 else:
                     ctx.violated("F9c", key, f.where(line), "%s; the listed API guard (%s in %s) is no longer present" % (why, cn, gf))
             else:
+                mfs = [(ex, bits) for (k2, ex, bits) in sites.get(line, []) if k2 == key]
+                mfe = _underlying(mfs[0][0]) if mfs else None
+                cen = _field_census(prog, mfe[3], mfe[2], mfs[0][1] or 16, signed=True) if kind(mfe) == "mem" else (False, "")
+                if cen[0]:
+                    ctx.holds("F9c", key, f.where(line), cen[1], nontrivial=True)
+                    continue
                 ctx.violated("F9c", key, f.where(line),
-                             "value encoded into a 16-bit field of the file record is not bounded: %s — larger values are silently "
-                             "truncated in the stored record" % why)
+                             "value encoded into a 16-bit field of the file record is not bounded: %s%s — larger values are silently "
+                             "truncated in the stored record" % (why, ("; " + cen[1]) if cen[1] else ""))
     # (c2) narrowing stores into those fields elsewhere in the library
     m = 0
     for f in prog.lib_funcs():
@@ -543,6 +596,8 @@ def rule_F9c(ctx):
             if not tb or tb[0] > 16:
                 continue
             r = _underlying(nn[3])
+            while kind(r) == "asg":
+                r = _underlying(r[3])  # a = b = CONST
             if kind(r) == "int":
                 continue
             rb = prog.int_bits(_etype(prog, r) or "")
